@@ -177,7 +177,8 @@ def run(ctx):
         "Sem (Model/Sem.lean) is the source-level meaning of Mono and Lift programs; Go.Sem / Go.Check are our reading of the Go spec for the emitted subset",
         "the Mono dump omits the type stored on if/let/while/go/literal nodes; the harness checks on every real Mono tree that Lift.monoTy recomputes it (TYLOSS rows)",
         "the number handed out first by the pipeline-wide Gensym inside the pass is read off the real output (name of the first env parameter)",
-        "no local variable or user function is spelled like an apply function (`inherent#…#apply`) or an env parameter (`env<N>`): C19's hypothesis",
+        "DirectFlow includes, per program, that no variable in scope is spelled like the apply function or env parameter it meets (checked by the validator, not assumed)",
+        "lift_preserves_partial speaks about source runs that end normally or panic; runs that exhaust the fuel or get stuck (ill-typed IR) are outside it",
     ]
     tb = ["Lean 4 kernel", "axioms: " + ",".join(ctx.proof["axioms"] or ["none"]), "Sem/Go.Sem/Go.Check definitions",
           "harness/src/c08.rs, dump.rs, godump.rs (serialisers)", "tools/props/c08.py (comparison)"]
